@@ -74,7 +74,7 @@ class CouplingAnalysisPurePython:
             (self.total_time, n_lev, n_lat, n_lon) = dataarray.shape
             self.N = n_lev * n_lat * n_lon
             self.dataarray = dataarray.reshape(-1, self.N).T.copy()
-        if numpy.ndim(dataarray) == 3:
+        elif numpy.ndim(dataarray) == 3:
             (self.total_time, n_lat, n_lon) = dataarray.shape
             self.N = n_lat * n_lon
             self.dataarray = dataarray.reshape(-1, self.N).T.copy()
